@@ -16,7 +16,10 @@
 pub mod choice;
 pub mod hooks;
 
+pub mod wire;
+
 pub mod c10_qos;
+pub mod c14_msg;
 
 use std::fmt::Write as _;
 
@@ -132,5 +135,6 @@ pub struct ExhaustiveReport {
 pub fn registry() -> Vec<Property> {
   let mut v = Vec::new();
   v.push(c10_qos::property());
+  v.push(c14_msg::property());
   v
 }
